@@ -212,5 +212,20 @@ PLANS = {
              'expression with >= 2 operator kinds or parentheses.',
         assumptions=['the eUML front-end is not covered by this revision', 'state-local internal tables are compared between functor and basic only (PlantUML cannot express them)'],
     ),
+    'C15': dict(
+        oracle='C15', level='exploration', mode='copy',
+        profiles=[('copy', 6)], curated=[], configs=ALLCFG,
+        cp=dict(max_ops=22, scripts={'p': ['r', 'Q']}, moves=False), cp_mp11=dict(moves=True),
+        examples=(250, 2000), floor=(60, 600),
+        rule='Generated histories with copy-construction (from a const reference), copy-assignment (backmp11 additionally move) at '
+             'arbitrary quiescent points - nested non-initial configurations, history memory, pending enqueued and deferred '
+             'occurrences - followed by different, interleaved continuations of original and copies (incl. draining pending '
+             'occurrences and taking exit points). Oracle: (faithful) each derived object, from its creation on, produces token for '
+             'token the trace of a fresh machine replaying that object\'s whole history; (independent) no behaviour runs on an '
+             'object other than the driven one (behaviours are tagged with the object that owns the address they run on) and an '
+             'object\'s configuration never changes while another is driven. Non-trivial = a copy taken from a non-initial '
+             'configuration or with pending occurrences and then driven further; distinct by (spec, object, its history).',
+        assumptions=['copies are taken from a const reference (a non-const lvalue selects back\'s forwarding constructor)'],
+    ),
 }
 NOT_YET = {}
